@@ -96,6 +96,11 @@ class Sources:
         q = fn.__qualname__
         if code.co_name == "<lambda>":
             cands = ms.lambdas.get(code.co_firstlineno, [])
+            if len(cands) > 1:
+                want = list(code.co_varnames[: code.co_argcount])
+                same = [l for l in cands if [a.arg for a in l.args.args] == want]
+                if len(same) == 1:
+                    cands = same
             if len(cands) != 1:
                 # mutated files may shift lines: fall back to unique lambda with the same arg names
                 allc = [l for ls in ms.lambdas.values() for l in ls if [a.arg for a in l.args.args] == list(code.co_varnames[: code.co_argcount])]
